@@ -661,6 +661,19 @@ func (e *Eval) compile(node ast.Node) error {
 
 		//
 		//
+
+		// The subject is translated again for every case it is
+		// compared with - and so not at all if there is nothing
+		// but a default.  Translate it here, once, and throw the
+		// result away: a subject which isn't valid is then always
+		// reported.
+		before := e.instructions
+		err := e.compile(node.Value)
+		e.instructions = before
+		if err != nil {
+			return err
+		}
+
 		patches := []int{}
 
 		// We have to assemble each choice
